@@ -467,7 +467,11 @@ impl<K: El, V: El> Mon<K, V> {
                     dest.insert(kk, v);
                 }
                 let dest_split = dest.verif_state().old.is_some();
-                m!(out, dest.clone_from(&self.map));
+                // (kept in the monitor during the call, so that an interrupted clone_from leaves
+                // its destination where the fault driver can look at it)
+                self.limbo = Some(dest);
+                m!(out, self.limbo.as_mut().unwrap().clone_from(&self.map));
+                let dest = self.limbo.take().unwrap();
                 out.act.push(dest_split as u64);
                 out.exp.push(dest_split as u64);
                 for id in &prior {
